@@ -15,6 +15,7 @@ REGISTRY = {
     "C03": "passfail",
     "C04": "ap",
     "C10": "filtering",
+    "C20": "enums",
     "C07": "frames",
     "C05": "clear",
 }
@@ -30,6 +31,9 @@ def main():
     repo = os.environ.get("VERIF_REPO")
     if repo:
         sys.path.insert(0, os.path.join(repo, "perception_eval"))
+    import logging
+
+    logging.disable(logging.CRITICAL)
     from harness import tlc
     from harness.core import Ctx
 
